@@ -150,7 +150,23 @@ def _check_demux(ctx, prog, b, owner, exact, forbidden, wildcard_keep, session_a
             gets.append((bb, t))
     key = "U-LOOKUP:%s::demux" % owner
     if len(gets) != 2:
-        ctx.bad("U-LOOKUP", key, b.span, "expected two listen_bindings lookups (exact, then wildcard), found %d" % len(gets))
+        # another arrangement of lookups: decide the two clauses on paths instead of on the familiar shape
+        wild = [(bb, t) for bb, t in gets if any(a[0] == "named" and a[1].endswith("CURRENT_NETWORK") for a in dep.arg_origins(b, bb, 1, prog=prog))]
+        exact_g = [(bb, t) for bb, t in gets if (bb, t) not in wild]
+        ms = [x for x, st in K.aggregates(b, "DemuxError", "MissingSession")]
+        probs = []
+        if not wild or not exact_g:
+            probs.append("the datagram is not looked up under both its exact destination and the wildcard address")
+        else:
+            for x in ms:
+                if not g.all_paths_through(0, [x], [bb for bb, _t in wild]):
+                    probs.append("a datagram can be refused with MissingSession without the wildcard binding (0.0.0.0, port) having been consulted: the application that bound the wildcard address no longer gets datagrams for ports nobody bound exactly")
+                    break
+            for wb, _wt in wild:
+                if not any(g.dominates(eb_, wb) for eb_, _t in exact_g):
+                    probs.append("the wildcard binding can be chosen without the exact (address, port) binding having been looked up first: an exact binding no longer always wins")
+                    break
+        ctx.bad("U-LOOKUP", key, b.span, "; ".join(probs) if probs else "expected two listen_bindings lookups (exact, then wildcard), found %d" % len(gets))
         return
     if g.dominates(gets[1][0], gets[0][0]) and not g.dominates(gets[0][0], gets[1][0]):
         gets = [gets[1], gets[0]]
